@@ -101,6 +101,13 @@ theorem pair_facts (st : SeqState K) (op : OpK) (t s : Nat) (h : opOk.pair st op
     · exact isVecKind_ne_tv hk.1.1.1.2
     · exact isMatKind_ne_tv hk.1.2
 
+theorem rowPair_facts (st : SeqState K) (op : OpK) (t i s j : Nat) (h : opOk.rowPair st op t i s j = true) :
+    t < st.size ∧ s < st.size ∧ t ≠ s ∧ st.kind t ≠ .tv ∧ st.kind s ≠ .tv
+    ∧ i < (st.rd t).rows ∧ j < (st.rd s).rows ∧ (st.rd t).cols = (st.rd s).cols := by
+  simp only [opOk.rowPair, Bool.and_eq_true, decide_eq_true_eq, bne_iff_ne, ne_eq, beq_iff_eq] at h
+  obtain ⟨⟨⟨⟨⟨⟨⟨⟨⟨⟨ht, hs⟩, hne⟩, hmt⟩, hms⟩, _⟩, _⟩, hi⟩, hj⟩, hc⟩, _⟩ := h
+  exact ⟨ht, hs, hne, isMatKind_ne_tv hmt, isMatKind_ne_tv hms, hi, hj, hc⟩
+
 theorem opOk_lmul (st : SeqState K) (t s : Nat) :
     opOk st (.lmul t s) = (opOk.pair st .lmul t s && (st.rd t).rows == (st.rd t).cols) := rfl
 theorem opOk_rmul (st : SeqState K) (t s : Nat) :
@@ -174,6 +181,8 @@ theorem opOk_target (st : SeqState K) (op : SOp K) (h : opOk st op = true) :
   | kern k a alpha x y =>
     have := kern_facts st k a x y alpha h
     exact ⟨this.2.2.1, this.2.2.2.2.2.1⟩
+  | rasg t i s j => have := rowPair_facts st .asg t i s j h; exact ⟨this.1, this.2.2.2.1⟩
+  | raxpy t i k s j => have := rowPair_facts st .axpy t i s j h; exact ⟨this.1, this.2.2.2.1⟩
 
 /-! ### the assignment tables read from scalarvectorview.hh / scalarmatrixview.hh
 
@@ -191,6 +200,7 @@ theorem handleMode_writes (st : SeqState K) (op : SOp K) :
   cases op <;> simp only [handleMode]
   case asg t s => exact assignMode_writes _ _
   case fill t k => exact fillMode_writes _
+  case rasg t i s j => exact assignMode_writes _ _
   all_goals exact Or.inl trivial
 
 /-- an executed operation is a single write of its value through its target -/
@@ -279,8 +289,9 @@ theorem init_reg (ds : List (Decl K)) (i : Nat) (d : Decl K) (h : ds[i]? = some 
     · rw [List.getElem?_eq_none hge] at h; cases h
   simp only [initState, List.getElem?_map, List.getElem?_range hi, Option.map_some, h]
   by_cases hk : d.kind = .tv
-  · have : (Gen.tvHolds == ViewHold.reference) = true := by decide
-    simp [hk, this]
+  · have h1 : (Gen.tvHolds == ViewHold.reference) = true := by decide
+    have h2 : (Gen.twRefHolds == ViewHold.reference) = true := by decide
+    cases hv : d.viaRefWrapper <;> simp [hk, h1, h2]
   · simp [hk]
 
 theorem init_size (ds : List (Decl K)) : (initState ds).size = ds.length := by
